@@ -22,6 +22,9 @@ fn terms(tier: Tier) -> Vec<T> {
     t.push(node2("mul", node2("mul", v(0), v(1)), v(2)));
     t.push(node2("add", node2("mul", v(0), v(1)), node2("mul", v(1), v(0))));
     t.push(bind1("sum", 100, node2("add", v(100), node2("add", v(0), v(1)))));
+    // a slot that can only become redundant in place
+    t.push(node2("mul", v(0), T { op: "0", args: vec![] }));
+    t.push(node2("add", node2("mul", v(0), T { op: "0", args: vec![] }), v(1)));
     t.extend(start_terms(if tier == Tier::Quick { 2 } else { 3 }));
     t
 }
@@ -40,6 +43,7 @@ fn rule_sets() -> Vec<Vec<usize>> {
     v.push(vec![idx("let-subst"), idx("let-add")]);
     v.push(vec![idx("add-zero"), idx("mul-zero"), idx("mul-one")]);
     v.push(vec![idx("sum-rebind"), idx("let-var")]);
+    v.push(vec![idx("mul-zero-rename"), idx("add-comm")]);
     v.push((0..n).collect());
     v.push(vec![]);
     v
